@@ -50,6 +50,7 @@ type Config struct {
 	V6       bool          // server listens on an IPv6 address
 	NoAuth   bool          // no AuthHandler configured (STUN-only server)
 	Wild     bool          // the stream listener is bound to the unspecified address (0.0.0.0:3478), as in production
+	Dual     bool          // a UDP socket AND a stream listener on the same ip:port, one relay address generator; clients named *t use the stream
 	Name     string
 }
 
@@ -58,6 +59,9 @@ func (c Config) String() string {
 		c.Lifetime, c.Perm, c.Chan, c.Policy, c.Stream, c.MTU, c.Strict, c.SlowCB, c.V6)
 	if c.Wild {
 		s += " wildcard-listener"
+	}
+	if c.Dual {
+		s += " udp+stream-listeners"
 	}
 
 	return s
@@ -188,6 +192,9 @@ var ClientSpec = map[string]struct {
 	"c2": {&net.UDPAddr{IP: net.IPv4(10, 0, 0, 2).To4(), Port: 4001}, "u2"},
 	"c3": {&net.UDPAddr{IP: net.IPv4(10, 0, 0, 3).To4(), Port: 4000}, "u1"},
 	"c6": {&net.UDPAddr{IP: net.ParseIP("fd00:a::2"), Port: 4000}, "u1"},
+	// stream clients of a Dual world with the very ip:port (and user) of the UDP clients c1 / c2
+	"c1t": {&net.UDPAddr{IP: net.IPv4(10, 0, 0, 2).To4(), Port: 4000}, "u1"},
+	"c2t": {&net.UDPAddr{IP: net.IPv4(10, 0, 0, 2).To4(), Port: 4001}, "u1"},
 	// IPv4-compatible IPv6 address ::10.0.0.2 with c1's port: differs from c1 only in the first 12 address bytes
 	"c1x": {&net.UDPAddr{IP: net.IP{0, 0, 0, 0, 0, 0, 0, 0, 0, 0, 0, 0, 10, 0, 0, 2}, Port: 4000}, "u2"},
 }
@@ -314,7 +321,7 @@ func NewWorld(cfg Config, clients, peers []string) (*World, error) {
 	default:
 		return nil, fmt.Errorf("unknown policy %q", cfg.Policy)
 	}
-	if cfg.Stream {
+	if cfg.Stream || cfg.Dual {
 		lip := w.SrvAddr.IP
 		if cfg.Wild {
 			lip = net.IPv4zero
@@ -328,7 +335,8 @@ func NewWorld(cfg Config, clients, peers []string) (*World, error) {
 		}
 		w.Lst = l
 		sc.ListenerConfigs = []turn.ListenerConfig{{Listener: l, RelayAddressGenerator: relayGen{w}, PermissionHandler: ph}}
-	} else {
+	}
+	if !cfg.Stream || cfg.Dual {
 		s, err := w.Net.ListenUDP("udp", w.SrvAddr)
 		if err != nil {
 			return nil, err
@@ -344,7 +352,7 @@ func NewWorld(cfg Config, clients, peers []string) (*World, error) {
 	for _, n := range clients {
 		spec := ClientSpec[n]
 		c := &Client{Name: n, Addr: spec.Addr, User: spec.User, Pass: Users[spec.User], w: w}
-		if cfg.Stream {
+		if (cfg.Stream && !cfg.Dual) || (cfg.Dual && strings.HasSuffix(n, "t")) {
 			conn, err := w.Net.DialTCPAddr(&net.TCPAddr{IP: spec.Addr.IP, Port: spec.Addr.Port},
 				&net.TCPAddr{IP: w.SrvAddr.IP, Port: w.SrvAddr.Port})
 			if err != nil {
